@@ -144,7 +144,9 @@ def observe(term, rng):
         shift = np.array([1.0, 0.5]) if outer_name == 'ShiftPos' else np.array([-0.75, -2.0])
         for j, ip in enumerate(inner_ps.search_space.parameters):
           lo, hi = ip.bounds
-          q[ip.name] = float(np.clip(p[ip.name] - shift[j], lo, hi))
+          # every point of the space the wrapper ADVERTISES corresponds to the base point x - shift (no clipping in the oracle:
+          # a wrapper that advertises points whose shifted image lies outside the base space is evaluating something else)
+          q[ip.name] = float(p[ip.name] - shift[j])
       elif outer_name == 'Discretize':
         q = {k: float(v) for k, v in p.items()}
       elif outer_name == 'HyperCube':
